@@ -11,7 +11,9 @@ class C14(Prop):
     assumptions = ["threads only use handles they own (Rust's ownership rules)"]
     def suites(self, tier, rng):
         n = 300 if tier == "quick" else 5000
-        return [Suite("arc", arcgen.HEADER, [arcgen.gen_case(rng) for _ in range(n)])]
+        return [Suite("arc", arcgen.HEADER, [arcgen.gen_case(rng) for _ in range(n)]),
+                # OgreArc is Sync and clone() takes &self: one handle - possibly the sole one - borrowed and cloned by several threads (oracle only)
+                Suite("shared_handle(oracle only)", arcgen.HEADER, [arcgen.gen_shared_case(rng) for _ in range(n // 2)], compare=False)]
     def oracle(self, case, recs): return arcgen.oracle(case, recs)
     def nontrivial(self, case, recs): return arcgen.nontrivial(case, recs)
     def parse_replay(self, text):
